@@ -1,20 +1,9 @@
 use rooc::*;
+use indexmap::IndexMap;
 fn main() {
-    // case 7: max x + 0.5y s.t. x + 3y >= 3 ; x + y = 4 ; x>=0, y>=1
-    let n = 4; let m = 3;
-    let rows = vec![vec![1.0,3.0,-1.0,0.0], vec![1.0,1.0,0.0,0.0], vec![0.0,1.0,0.0,-1.0]];
-    let b = vec![3.0,4.0,1.0];
-    let mut a = rows.clone();
-    let mut c = vec![0.0; n+m];
-    let mut basis = vec![0; m];
-    for i in 0..m { c[n+i] = 1.0; basis[i] = n+i; }
-    let mut value = 0.0;
-    let mut vars: Vec<String> = (0..n).map(|i| format!("v{i}")).collect();
-    for (i, row) in a.iter_mut().enumerate() { row.resize(n+m, 0.0); row[i+n] = 1.0; vars.push(format!("$a_{i}")); for (j, co) in row.iter().enumerate() { c[j] -= co; } value -= b[i]; }
-    let mut t = Tableau::new(c, a, b, basis, value, 0.0, vars, true);
-    let art: Vec<usize> = (n..n+m).collect();
-    println!("c={:?} value={}", t.c_vec(), t.current_value());
-    for _ in 0..10 {
-        match t.step(&art) { Ok(StepAction::Pivot{entering, leaving, ratio}) => println!("pivot e={entering} l={leaving} r={ratio} basis={:?} c={:?} b={:?}", t.in_basis(), t.c_vec(), t.b_vec()), Ok(StepAction::Finished) => { println!("finished"); break; }, Err(e) => { println!("err {e:?}"); break; } }
+    for name in ["trueish", "minx", "asb", "forz", "inx", "andy", "orb", "notx", "xorz", "iffy", "impliesq", "maxi", "letter", "wherever", "defined", "solver", "falsey", "a"] {
+        let src = format!("min {name} + 1\ns.t.\n    {name} >= 0\ndefine\n    {name} as Boolean");
+        let r = RoocParser::new(src).parse_and_transform(vec![], &IndexMap::new());
+        println!("{name}: {}", match r { Ok(m) => format!("ok {}", m.objective().rhs), Err(e) => format!("ERR {}", e.lines().nth(1).unwrap_or("").trim().chars().take(60).collect::<String>()) });
     }
 }
